@@ -127,6 +127,7 @@ void run_knob(const gen::GGraph &gg, const Json &cs, sim::Chooser &ch, RunResult
     probes_reset(); sim::tbbstats.reset(); sim::cv_pool_reset();
     apply_cfg(cs["cfg"]);
     sim::Sched &s = sim::Sched::get();
+    sim::LayoutScope scope;      // edge nodes from the arena: pointer order must not depend on heap history
     Built<G> b; b.build(gg);
     auto wm = boost::get(boost::edge_weight, b.g);
     long model = -1;              // -1: never set -> the runtime default applies
